@@ -167,7 +167,8 @@ type lsOp struct {
 	U    string `json:"u"` // "a" or "b"
 	C    int    `json:"c"` // content id (1-based into the case's table list), 0 if none
 	Slow bool   `json:"slow"`
-	P    int    `json:"p"` // def: index into the positions of the document's latest content
+	P    int    `json:"p"`    // def: index into the positions of the document's latest content
+	Sync bool   `json:"sync"` // wait for everything expected so far before sending this op
 	// filled by the driver
 	V    int `json:"v"`
 	ID   int `json:"id"`
@@ -398,6 +399,11 @@ func (s *lsServer) run(c *lsCase, tables map[int]*lsTable) bool {
 	}
 	for i := range c.Ops {
 		op := &c.Ops[i]
+		if op.Sync {
+			if !wait(expect, 20*time.Second) {
+				return false
+			}
+		}
 		op.V = 5*(i+1) + 1
 		if op.Slow {
 			op.V = 5*(i+1) + 2
@@ -649,8 +655,8 @@ func lsRandom(args []string) error {
 				c.Mode = "pipelined"
 				c.Ops = []lsOp{{K: "open", U: "a", C: 1, Slow: true}}
 				for k := 0; k < 2+r.Intn(3); k++ {
-					c.Ops = append(c.Ops, lsOp{K: "def", U: "a", P: r.Intn(1000)})
-					if r.Intn(3) > 0 {
+					c.Ops = append(c.Ops, lsOp{K: "def", U: "a", P: r.Intn(1000), Sync: true}) // sent when the server is idle, so that
+					if r.Intn(3) > 0 {                                                         // the cancellation below finds it running
 						c.Ops = append(c.Ops, lsOp{K: "cancel", U: "a"})
 					}
 					c.Ops = append(c.Ops, lsOp{K: "def", U: "a", P: r.Intn(1000)})
